@@ -250,6 +250,16 @@ func (g *lockGen) plan() *BlockPlan {
 			if !v.Exists || v.Status != "Downgrade" || len(thresholds) > 0 {
 				continue
 			}
+			if rare(2) { // ... or a threshold on a token the jailed validator holds NOTHING of (no top-up of what it holds may re-admit it)
+				for ti := range st.Tokens {
+					if v.Locking[ti] == 0 && st.Tokens[ti].Exists && len(thresholds) == 0 {
+						th := int64(1 + r.Intn(2))
+						lk.UpdateThresholds = append(lk.UpdateThresholds, &goattypes.UpdateTokenThresholdRequest{Token: project.TokenAddrs[ti], Threshold: big.NewInt(th)})
+						thresholds = append(thresholds, Ev{"t": ti + 1, "th": th})
+					}
+				}
+				continue
+			}
 			for ti := range st.Tokens {
 				if v.Locking[ti] > 0 && st.Tokens[ti].Exists && len(thresholds) == 0 {
 					th := v.Locking[ti] + int64(1+r.Intn(2))
@@ -353,7 +363,13 @@ func (g *lockGen) plan() *BlockPlan {
 					held = append(held, ti)
 				}
 			}
-			if rare(2) && len(held) > 0 {
+			lacksAll := false // holds nothing at all of some token that has a threshold
+			for ti := range st.Tokens {
+				if st.Tokens[ti].Exists && st.Thr[ti] > 0 && v.Locking[ti] == 0 {
+					lacksAll = true
+				}
+			}
+			if (rare(2) || (lacksAll && rare(2))) && len(held) > 0 {
 				ti := held[r.Intn(len(held))]
 				amt := int64(1 + r.Intn(3))
 				lk.Locks = append(lk.Locks, &goattypes.LockRequest{Validator: c.KR.Vals[vi].EthAddr(), Token: project.TokenAddrs[ti], Amount: big.NewInt(amt)})
